@@ -43,6 +43,7 @@ fn run_line(line: &str) -> String {
         "CSTRNEW" => textapi::run_cstrnew(args),
         "TXTTEXT" => textapi::run_txttext(args),
         "HDRMOD" => header::run_hdrmod(args),
+        "PEEKF" => header::run_peekf(args),
         "TXTATTR" => textapi::run_txtattr(args),
         "ATTRMAP" => textapi::run_attrmap(args),
         "ESCAPE" => textapi::run_escape(args),
